@@ -230,8 +230,8 @@ theorem specTok_used (sep : Bytes) (s : Bytes) :
           (s.drop (runLen (isSep sep) s)).length - tokLen sep (s.drop (runLen (isSep sep) s)) := List.length_drop
       exact ⟨by show _ + _ + _ ≤ _; omega, fun _ => by show _ ≤ _ + _ + _; omega⟩
 
-theorem specToken_cur (a : Abs) (sep : Bytes) (hin : a.cur ≤ a.src.length) :
-    a.cur ≤ (specToken a sep).2.2.cur ∧ (specToken a sep).2.2.cur ≤ a.src.length ∧ (specToken a sep).2.2.src = a.src ∧
+theorem specToken_cur (a : Abs) (sep : Bytes) :
+    a.cur ≤ (specToken a sep).2.2.cur ∧ (specToken a sep).2.2.src = a.src ∧
     ((specToken a sep).1 = .ok → a.cur + runLen (isSep sep) a.suffix ≤ (specToken a sep).2.2.cur) := by
   have hu := specTok_used sep a.suffix
   have hl := abs_suffix_length a
@@ -239,7 +239,7 @@ theorem specToken_cur (a : Abs) (sep : Bytes) (hin : a.cur ≤ a.src.length) :
   have e2 : (specToken a sep).2.2.cur = a.cur + (specTok sep a.suffix).2.2 := rfl
   have e3 : (specToken a sep).2.2.src = a.src := rfl
   rw [e1, e2, e3]
-  exact ⟨Nat.le_add_right _ _, by omega, rfl, fun hh => by have := hu.2 hh; omega⟩
+  exact ⟨Nat.le_add_right _ _, rfl, fun hh => by have := hu.2 hh; omega⟩
 
 theorem sim_getToken (P : Nat) (sep : Bytes) : SimStep P (.getToken sep) := by
   intro a s r _
@@ -247,11 +247,11 @@ theorem sim_getToken (P : Nat) (sep : Bytes) : SimStep P (.getToken sep) := by
   rw [r.abs_eq] at e
   obtain ⟨k, ok, p1, p2⟩ := getToken_keep_p s.b sep r.wf r.aok r.nfa
   rw [r.abs_eq] at p1
-  have hc := specToken_cur a.abs sep r.inb
+  have hc := specToken_cur a.abs sep
   have e1 : (getToken s.b sep).1.st = (specToken a.abs sep).1 := congrArg Prod.fst e
   refine sim_of_refines (s' := (s.step (.getToken sep)).2) (o := (getToken s.b sep).1) (spec := specToken a.abs sep)
     (lp := if (specToken a.abs sep).1 = .ok then some (a.cur + runLen (isSep sep) a.abs.suffix) else none)
-    r w pg k ok e ⟨hc.1, hc.2.1, hc.2.2.1⟩ ?_ ?_
+    r w pg k ok e ⟨hc.1, hc.2.1⟩ ?_ ?_
   · show ((getToken s.b sep).1.p).map ((getToken s.b sep).2.base + ·) = _
     by_cases hok : (specToken a.abs sep).1 = .ok
     · rw [if_pos hok]
@@ -263,7 +263,7 @@ theorem sim_getToken (P : Nat) (sep : Bytes) : SimStep P (.getToken sep) := by
     split at hp
     · rename_i hok
       cases hp
-      exact ⟨Nat.le_add_right _ _, hc.2.2.2 hok⟩
+      exact ⟨Nat.le_add_right _ _, hc.2.2 hok⟩
     · cases hp
 
 theorem sim_fetchToken_gen (P : Nat) (sep : Bytes) (asStr : Bool) (op : Op)
@@ -273,14 +273,14 @@ theorem sim_fetchToken_gen (P : Nat) (sep : Bytes) (asStr : Bool) (op : Op)
   obtain ⟨w, e, _, pg, _⟩ := fetchToken_refines s.b sep asStr r.wf
   rw [r.abs_eq] at e
   obtain ⟨k, ok⟩ := fetchToken_keep s.b sep asStr r.wf r.aok r.nfa
-  have hc := specToken_cur a.abs sep r.inb
+  have hc := specToken_cur a.abs sep
   have hb : (s.step op).2.b = (fetchToken s.b sep asStr).2 := by rw [step_b, hrun]
   have hl : (s.step op).2.lastp = none := by rw [step_lastp, hrun]; exact fetchToken_p s.b sep asStr
   have ho : (s.step op).1 = (fetchToken s.b sep asStr).1 := by rw [step_out, hrun]
   have hne : op ≠ .get := by rcases hop with h | h <;> rw [h] <;> intro hh <;> cases hh
   have := sim_of_refines (s' := (s.step op).2) (o := (fetchToken s.b sep asStr).1) (spec := specToken a.abs sep) (lp := none)
     r (by rw [hb]; exact w) (by rw [hb]; exact pg) (by rw [hb]; exact k) (by rw [hb]; exact ok) (by rw [hb]; exact e)
-    ⟨hc.1, hc.2.1, hc.2.2.1⟩ (by rw [hl]; rfl) (fun p hp => by cases hp)
+    ⟨hc.1, hc.2.1⟩ (by rw [hl]; rfl) (fun p hp => by cases hp)
   have hspec : specStep a op = (⟨(specToken a.abs sep).1, (specToken a.abs sep).2.1, (specToken a.abs sep).2.2.cur⟩,
       { a with cur := (specToken a.abs sep).2.2.cur, lastp := none }) := by
     rcases hop with h | h <;> rw [h] <;> rfl
